@@ -240,7 +240,14 @@ func checkC10(c c10Case, o *Obs) error {
 	if c.CLI && gofastaBin() != "" {
 		dir, cleanup := caseDir("c10cli")
 		defer cleanup()
-		if err := cliAgree(o, "updown list", want.String(), "updown", "list", "-r", writeFile(dir, "ref.fa", refTxt), "-q", writeFile(dir, "aln.fa", alnTxt)); err != nil {
+		args := []string{"updown", "list", "-r", writeFile(dir, "ref.fa", refTxt)}
+		stdin := ""
+		if len(c.Recs)%2 == 0 && len(alnTxt) < 60000 {
+			stdin = alnTxt // -q defaults to stdin
+		} else {
+			args = append(args, "-q", writeFile(dir, "aln.fa", alnTxt))
+		}
+		if err := cliAgreeStdin(o, "updown list", want.String(), stdin, args...); err != nil {
 			return err
 		}
 	}
